@@ -191,7 +191,7 @@ Proof.
   - cbn [count]. rewrite IH. reflexivity.
 Qed.
 
-Lemma elide_fold_count P x : forall todo acc,
+Lemma elide_fold_count (P : name -> bool) (x : name) : forall (todo acc : list name),
   count x (fold_left (fun acc y => if P y then remove_first y acc else acc) todo acc)
   = if P x then count x acc - count x todo else count x acc.
 Proof.
@@ -204,15 +204,14 @@ Proof.
 Qed.
 
 (* every name the let binds is gone, with all its occurrences; every other name stays, as often as it was written *)
-Theorem elide_spec P names x : count x (elide P names) = if P x then 0 else count x names.
+Theorem elide_spec (P : name -> bool) (names : list name) (x : name) : count x (elide P names) = if P x then 0 else count x names.
 Proof. unfold elide. rewrite elide_fold_count. destruct (P x); lia. Qed.
 
-Corollary let_elision P names x : In x (elide P names) <-> In x names /\ P x = false.
+Corollary let_elision (P : name -> bool) (names : list name) (x : name) : In x (elide P names) <-> In x names /\ P x = false.
 Proof.
-  rewrite <- !count_In, elide_spec. destruct (P x); split; try lia.
-  - intros [_ H]. discriminate.
-  - intros H. split; [exact H | reflexivity].
-  - intros [H _]. exact H.
+  rewrite <- !count_In, elide_spec. destruct (P x).
+  - split; [lia | intros [_ H]; discriminate].
+  - split; [intros H; split; [exact H | reflexivity] | intros [H _]; exact H].
 Qed.
 
 (* this is what ScopeLet.define_nonlocal hands on to the enclosing scopes *)
